@@ -372,7 +372,7 @@ def run_block(cfg) -> Dict[str, Any]:
     errors = loop.collect_errors()
     loop.abandon()
     if status != "ok":
-        raise core.HarnessError(f"block {cfg} did not complete: {status} {val!r}")
+        raise core.HarnessError(f"block {cfg} did not complete: {status} {core.clean_repr(val)}")
     if errors:
         raise core.HarnessError(f"block {cfg}: event loop reported {errors[:2]}")
     if single:
@@ -449,7 +449,7 @@ def run_pairing(cfg) -> Dict[str, Any]:
         errors = loop.collect_errors()
         loop.abandon()
     if status != "ok":
-        raise core.HarnessError(f"pairing {cfg} did not complete: {status} {val!r}")
+        raise core.HarnessError(f"pairing {cfg} did not complete: {status} {core.clean_repr(val)}")
     kind, detail = val
     inter = [v for v in client_list if v in supported]
     proposed = [w.get("params", {}).get("protocolVersion") for w in wire_log if w.get("method") == "initialize"]
@@ -574,7 +574,7 @@ def run_twostep(cfg) -> Dict[str, Any]:
         errors = loop.collect_errors()
         loop.abandon()
     if status != "ok":
-        raise core.HarnessError(f"two-step {cfg} did not complete: {status} {val!r}")
+        raise core.HarnessError(f"two-step {cfg} did not complete: {status} {core.clean_repr(val)}")
     if errors:
         raise core.HarnessError(f"two-step {cfg}: event loop reported {errors[:2]}")
     r1, r2 = out["r1"], out["r2"]
